@@ -83,6 +83,22 @@ def dedup_bounded(sess: Session):
             want = list(dict.fromkeys(list(r1) + list(r2)))
             if got != want:
                 bad.append({'group results': [r1, r2], 'got': got, 'want': want})
+    # a lemmatizer that proposes parts of speech without any form proposes no (pos, form) pair: the query itself is
+    # searched (the query function must never be asked with an empty form collection, which means "no form filter")
+    for groups in ({'n': set()}, {'n': set(), 'v': []}, {'n': set(), 'v': {'y'}}):
+        asked = []
+
+        def query(pos=None, forms=None, asked=asked, **kw):
+            asked.append((pos, sorted(forms) if forms is not None else None))
+            return []
+        try:
+            core._find_helper(W(groups), Ent, query, 'q', 'a')
+        except Exception as exc:   # noqa: BLE001
+            raise Unsupported(f'C09: _find_helper could not be run with stub collaborators: {type(exc).__name__}: {exc}')
+        cases += 1
+        want = [(p, sorted(f)) for p, f in groups.items() if f] or [('a', ['q'])]
+        if asked != want:
+            bad.append({'lemmatizer proposes': repr(groups), 'queries made': asked, 'expected': want})
     sess.add_bounded('wn._core._find_helper (union over lemmatizer groups without duplicates)',
                      'two (pos, forms) groups x all ordered selections of <= 3 entities each', cases,
                      'native execution of the real function with stub wordnet/query/result class', not bad)
